@@ -1,6 +1,8 @@
 package world
 
 import (
+	"github.com/herumi/bls-eth-go-binary/bls"
+	"github.com/attestantio/dirk/util"
 	pb "github.com/wealdtech/eth2-signer-api/pb/v1"
 	"context"
 	"crypto/sha256"
@@ -73,6 +75,7 @@ type Spec struct {
 	Wallets    []WalletSpec  `json:"wallets"` // explicit layout (overrides NKeys)
 	Perms      []ClientPerms `json:"perms"`   // default: client "c1" may do All on every wallet
 	AdminIPs   []string      `json:"admin_ips"`
+	Dist       int           `json:"dist"` // with NKeys: every Dist-th key (i % Dist == Dist-1) is a distributed account in wallet DW1
 	WalletDir  string        `json:"wallet_dir"` // filesystem wallet store if set, else in-memory
 	Passphrase string        `json:"passphrase"` // account passphrase (default "pass")
 	// UnlockerPassphrases defaults to [Passphrase].
@@ -123,10 +126,19 @@ func NewBase(ctx context.Context, spec Spec, log *Log, ctl *Control) (*Base, err
 	}
 	if len(spec.Wallets) == 0 {
 		w := WalletSpec{Name: "W1", Type: "nd"}
+		dw := WalletSpec{Name: "DW1", Type: "distributed"}
 		for i := 0; i < spec.NKeys; i++ {
+			if spec.Dist > 0 && i%spec.Dist == spec.Dist-1 {
+				// every Dist-th key belongs to a DISTRIBUTED account (a share of a threshold key with a composite key next to it)
+				dw.Accounts = append(dw.Accounts, AccountSpec{Name: fmt.Sprintf("a%d", i), KeyIdx: i})
+				continue
+			}
 			w.Accounts = append(w.Accounts, AccountSpec{Name: fmt.Sprintf("a%d", i), KeyIdx: i})
 		}
 		spec.Wallets = []WalletSpec{w}
+		if len(dw.Accounts) > 0 {
+			spec.Wallets = append(spec.Wallets, dw)
+		}
 	}
 	b := &Base{Spec: spec, Log: log, Ctl: ctl, Names: &Names{KeyName: map[string]string{}},
 		PubKeys: map[string][]byte{}, Paths: map[string]string{}, g: &gmap{}}
@@ -143,8 +155,36 @@ func NewBase(ctx context.Context, spec Spec, log *Log, ctl *Control) (*Base, err
 			if _, err := distributed.OpenWallet(ctx, ws.Name, b.Store, b.Encryptor); err == nil {
 				continue
 			}
-			if _, err := distributed.CreateWallet(ctx, ws.Name, b.Store, b.Encryptor); err != nil {
+			dwal, err := distributed.CreateWallet(ctx, ws.Name, b.Store, b.Encryptor)
+			if err != nil {
 				return nil, fmt.Errorf("create wallet %s: %w", ws.Name, err)
+			}
+			if len(ws.Accounts) > 0 {
+				if err := dwal.(e2wtypes.WalletLocker).Unlock(ctx, nil); err != nil {
+					return nil, err
+				}
+				for _, as := range ws.Accounts {
+					// the share of participant 1 of a 2-of-3 key whose polynomial is fixed by the key index
+					var s0, s1, share bls.SecretKey
+					if err := s0.Deserialize(SecretKey(as.KeyIdx)); err != nil {
+						return nil, err
+					}
+					if err := s1.Deserialize(SecretKey(as.KeyIdx + 500000)); err != nil {
+						return nil, err
+					}
+					if err := share.Set([]bls.SecretKey{s0, s1}, util.BLSID(1)); err != nil {
+						return nil, err
+					}
+					apass := spec.Passphrase
+					if as.Pass != "" {
+						apass = as.Pass
+					}
+					if _, err := dwal.(e2wtypes.WalletDistributedAccountImporter).ImportDistributedAccount(ctx, as.Name, share.Serialize(), 2,
+						[][]byte{s0.GetPublicKey().Serialize(), s1.GetPublicKey().Serialize()}, map[uint64]string{1: "signer-1:10001", 2: "signer-2:10002", 3: "signer-3:10003"}, []byte(apass)); err != nil {
+						return nil, fmt.Errorf("import %s/%s: %w", ws.Name, as.Name, err)
+					}
+				}
+				_ = dwal.(e2wtypes.WalletLocker).Lock(ctx)
 			}
 		default:
 			var w e2wtypes.Wallet
